@@ -129,6 +129,15 @@ def handle (fields : List String) : String :=
           | some (a, b) => toString a ++ "," ++ toString b
           | none => "-")
         ";".intercalate gs
+  | ["cfg_needs", name] =>
+    -- needed characters of every rule of a named configuration that the core configuration does not have
+    match Mistune.Generated.allCfgs.find? (fun c => c.name == name) with
+    | none => "no-cfg"
+    | some c =>
+      let core := Mistune.Generated.cfg_core
+      let baseNames := (core.block ++ core.inline).map (·.1)
+      let extra := (c.block ++ c.inline).filter (fun p => !baseNames.contains p.1)
+      ";".intercalate (extra.map (fun p => p.1 ++ ":" ++ ",".intercalate (p.2.needs.map toString)))
   | ["ping"] => "pong"
   | _ => "bad-op"
 
